@@ -118,7 +118,11 @@ class Flow(object):
                     return MergedDict(snames)
                 else:
                     outer_names = set(snames).difference(self.scope.locals)
-                    return {n: snames[n] for n in outer_names}
+                    names = {n: snames[n] for n in outer_names}
+                    if self.scope is self.scope.top:
+                        # module level code sees names bound via ``global`` in functions
+                        return MergedDict(self.scope.top._global_names, names)
+                    return names
             else:
                 return {}
 
